@@ -352,6 +352,37 @@ def argument_variants(col, scratch, kind, st):
             d = diff_sig(frame_sig(ddf.compute(scheduler="synchronous")), frame_sig(r.compute(scheduler="synchronous")))
             if d:
                 col.violation("args.dask", dict(case, variant=tag), d)
+        # the same relative path on two filesystems (two roots), the first lazily read frame still referenced while the
+        # second is made and while both are computed, separately and together
+        import dask
+        from fsspec.implementations.dirfs import DirFileSystem
+        ra, rb_ = os.path.join(base, "rootA"), os.path.join(base, "rootB")
+        os.makedirs(ra), os.makedirs(rb_)
+        dfb = GeoDataFrame({"v": np.arange(n) * 2 + 1000, "g": make_variant(kind, st, "plain", n)[::-1]}, index=make_index("named", n))
+        ddf.to_parquet(os.path.join(ra, "same.parq"))
+        dd.from_pandas(dfb, npartitions=3).to_parquet(os.path.join(rb_, "same.parq"))
+        fa, fb = DirFileSystem(ra, fs), DirFileSystem(rb_, fs)
+        col.count("evaluations", 3)
+        r1 = read_parquet_dask("same.parq", filesystem=fa)
+        r2 = read_parquet_dask("same.parq", filesystem=fb)
+        c2 = r2.compute(scheduler="synchronous")
+        c1 = r1.compute(scheduler="synchronous")
+        t1, t2 = dask.compute(r1, r2, scheduler="synchronous")
+        for tag, got, want in (("first", c1, df), ("second", c2, dfb), ("together-first", t1, df), ("together-second", t2, dfb)):
+            d = diff_sig(frame_sig(want), frame_sig(got))
+            if d:
+                col.violation("args.two_filesystems", dict(case, variant=tag), f"same path on two filesystems, {tag} read: {d}")
+        # a data column that happens to be called hilbert_distance, named in a projection
+        col.count("evaluations", 2)
+        dfh = GeoDataFrame({"hilbert_distance": np.arange(n) * 7 + 3, "v": np.arange(n), "g": make_variant(kind, st, "plain", n)},
+                           index=make_index("named", n))
+        ph = os.path.join(base, "hd.parq")
+        dd.from_pandas(dfh, npartitions=3).to_parquet(ph)
+        for proj in (["hilbert_distance", "g"], ["g", "v", "hilbert_distance"]):
+            got = read_parquet_dask(ph, columns=list(proj)).compute(scheduler="synchronous")
+            d = diff_sig(frame_sig(dfh[proj]), frame_sig(got))
+            if d:
+                col.violation("args.hilbert_distance_column", dict(case, variant="columns=%s" % proj), f"columns={proj}: {d}")
         col.count("evaluations")
         rb = read_parquet_dask(p2, build_sindex=True)
         d = diff_sig(frame_sig(ddf.compute(scheduler="synchronous")), frame_sig(rb.compute(scheduler="synchronous")))
